@@ -1,0 +1,13 @@
+//go:build verif
+
+package concurrent
+
+// VerifHook, when set by a verification harness, is called at the
+// linearization points of atoms and futures.  Build tag: verif.
+var VerifHook func(point string, obj interface{})
+
+func verifAt(point string, obj interface{}) {
+	if h := VerifHook; h != nil {
+		h(point, obj)
+	}
+}
